@@ -54,7 +54,7 @@ CHECKS = {
         level="exploration",
         technique="exhaustive grid identity for the 1-D kernel (degree argument), exhaustive table comparison, deviation-bounded enumeration over all ordered shell-type pairs on the real compute_overlap",
         text="1-D kernel: all 64 (n1,n2)<=7 on a full 9x9x9 grid vs Gauss-Hermite quadrature (polynomial identity => all reals); every entry of the Cartesian-to-pure tables l<=7 and normalisation constants; "
-        "compute_overlap on all ordered pairs of shell types (l<=4 quick, l<=7 thorough; Cartesian and pure) x k<=1/2 deviations over geometry, contraction (primitives in any order), conventions, one/two bases, exponent sets (distance x primitive order as a full product), "
+        "compute_overlap on all ordered pairs of shell types (l<=4 quick, l<=7 thorough; Cartesian and pure) x k<=1/2 deviations over geometry, contraction (primitives in any order), conventions, one/two bases (incl. the same object at two geometries), exponent sets (distance x primitive order as a full product), "
         "compared with an independent quadrature overlap; symmetry, PSD, transpose, translation and rejection clauses.",
         note="reference = ref/gto.py (closed-form solid harmonics in exact rationals, 30-node Gauss-Hermite); screened contributions (<1e-15 prefactor) are computed by the reference and added to the tolerance",
         design="DESIGN.md §2 C06",
@@ -71,7 +71,7 @@ CHECKS = {
         level="fault_enumeration",
         technique="exhaustive fault enumeration on the real dump_one/dump_many/write_input: every subset of required attributes missing, every rejection reason, every faulty-frame index, an OSError injected at every k-th write call",
         text="Full products over formats x required-attribute subsets x allow_changes x {absent, pre-existing} target; prepare_dump rejection reasons; unselectable formats; dump_many with faulty frame 0/1/2/none/empty x list/generator; "
-        "write faults at every write call of the fault-free run (cap 200 quick / 2000 thorough; at the first, second and last write also an exception without arguments); judged on exception type, preserved bytes, audit record of opens, closure of every opened file.",
+        "write faults at every write call of the fault-free run (cap 200 quick / 2000 thorough; at the first, second and last write also an exception without arguments and a DumpError); judged on exception type, preserved bytes, audit record of opens, closure of every opened file.",
         note="iodata.api.open replaced from outside by a counting/faulting wrapper; sys.addaudithook records opens; objects are the 3-atom default case of each format",
         design="DESIGN.md §2 C08",
     ),
@@ -138,7 +138,7 @@ CHECKS = {
         text="65 API calls (every format's load/dump/write_input on corpus or generated data, failing calls, ghost atoms): each history starts from the initial interpreter state in a forked child; every step's result must equal the "
         "call alone in a fresh interpreter and the snapshot of all module-level tables and the warnings machinery must remain the initial state (1 state, self-loops only). Threads: all schedules with <=2 preemptions of pairs "
         "(thorough: 15 pairs + 2 triples) of 6 cheap calls, scheduling points at every line of the API wrapper and of catch_warnings.__enter__/__exit__; dense pass: pairs of calls into the SAME format module (5 pairs quick, 22 thorough) with a scheduling point at every line of iodata code (first 2 / 4 visits of each line per thread), all schedules with <=1 preemption; "
-        "interleaved frame iterators: every order of the 4+4 steps of two load_many iterators over 21 format pairs, plus an unrelated load_one at every position of three orders; fault history: damaged siblings (every numeric token scaled / integer incremented) of 4-12 corpus files judged identically in a fresh child process and in one that loaded the intact file first; dense pass with 2 preemptions for xyz dump/dump (thorough: 3 pairs).",
+        "interleaved frame iterators: every order of the 4+4 steps of two load_many iterators over 21 format pairs, plus an unrelated load_one at every position of three orders; fault history: damaged siblings (every numeric token scaled / integer incremented) of 4-12 corpus files judged identically in a fresh child process and in one that loaded the intact file first; dense pass with 2 preemptions for xyz dump/dump (thorough: 3 pairs); watch pass: module tables fingerprinted at the first visit of every line of every pool call.",
         note="thread results compared with the same calls run alone; harness records warnings through one process-wide hook (no catch_warnings in threads); executions capped at 3000/60000 per group (cap recorded)",
         design="DESIGN.md §2 C16",
     ),
